@@ -3,6 +3,7 @@
  * the equation and unknown counters (vnacal_new_internal.h).
  *
  * Input: one operation per line (tokens separated by blanks)
+ *   vpar K N f.. re im ..     slot K = vnacal_make_vector_parameter (table of N points)
  *   new TYPE R C F            start a scenario (frees the previous one); F frequencies 1e9, 2e9, ...
  *   nofreq TYPE R C F         same but vnacal_new_set_frequency_vector is not called
  *   par K re im               scalar parameter in slot K (slots 0,1,2 = VNACAL_ZERO/ONE(OPEN)/SHORT)
@@ -272,6 +273,19 @@ int main(void)
 	    slots[k] = vnacal_make_scalar_parameter(vcp, g);
 	    verif_alloc_track(0);
 	    printf("P %d %s\n", k, slots[k] >= 0 ? "ok" : "fail");
+	} else if (strcmp(op, "vpar") == 0) {
+	    /* vpar K N f1..fN re1 im1 .. reN imN : vnacal_make_vector_parameter (a table over frequency) */
+	    int k = nexti();
+	    int n = nexti();
+	    static double vf[512];
+	    static double complex vg[512];
+	    if (n < 1 || n > 512) { fprintf(stderr, "harness: bad vpar length\n"); return 3; }
+	    for (int i = 0; i < n; ++i) vf[i] = nextd();
+	    for (int i = 0; i < n; ++i) vg[i] = nextc();
+	    verif_alloc_track(1);
+	    slots[k] = vnacal_make_vector_parameter(vcp, vf, n, vg);
+	    verif_alloc_track(0);
+	    printf("P %d %s\n", k, slots[k] >= 0 ? "ok" : "fail");
 	} else if (strcmp(op, "unk") == 0) {
 	    int k = nexti();
 	    int g = nexti();
@@ -324,6 +338,13 @@ int main(void)
 		double complex v = nextc();
 		for (int f = 0; f < cur_f; ++f) mv[i][f] = v;
 		m[i] = mv[i];
+	    }
+	    /* optionally the values at the frequencies 1 .. F-1 follow (frequency-dependent standards),
+	       one block of br*bc values per frequency */
+	    if (cur_f > 1 && ntok - ptok >= 2 * br * bc * (cur_f - 1)) {
+		for (int f = 1; f < cur_f; ++f)
+		    for (int i = 0; i < br * bc; ++i)
+			mv[i][f] = nextc();
 	    }
 	    errno = stale_errno();	/* never cleared for the library: a stale value must not matter */
 	    verif_alloc_track(1);
